@@ -305,11 +305,20 @@ func c08Class(kind string, m fmtMode, src []byte, origin string) string {
 	}
 	kind = c08Kind(kind)
 	strict := kind + "-" + v
+	lostOnly, lostOnlyOrdered := true, true
 	f0, err := c08Parse(src)
 	if err != nil {
 		return strict
 	}
-	derived := strings.HasPrefix(origin, "mutant(") || strings.Contains(origin, "generated(seed") || strings.HasPrefix(origin, "literals(seed") || strings.HasPrefix(origin, c08Irregular)
+	derived := strings.HasPrefix(origin, "mutant(") || strings.Contains(origin, "generated(seed") || strings.HasPrefix(origin, "literals(seed") || strings.HasPrefix(origin, "chains(seed") || strings.HasPrefix(origin, c08Irregular)
+	if kind == "tree-changed" {
+		// a tree change is attributable to a comment / -s shape only if no significant token was altered,
+		// added or (for comment shapes) reordered: tokens may only have been lost
+		if out, err, _ := c08Format(src, m); err == nil {
+			lostOnlyOrdered = c08OnlyLostTokens(src, out, true)
+			lostOnly = lostOnlyOrdered || c08OnlyLostTokens(src, out, false)
+		}
+	}
 	corpusLoss := kind == "comment-lost" && !derived // an unmutated repository file loses a comment
 	var hang *c08Shape
 	if m.v2 && kind == "not-idempotent" {
@@ -325,6 +334,9 @@ func c08Class(kind string, m fmtMode, src []byte, origin string) string {
 			}
 			if corpusLoss && sh.name != "comment-between-colon-and-value" {
 				continue // the only shape under which repository files are known to lose a comment
+			}
+			if kind == "tree-changed" && (strings.HasPrefix(sh.name, "simplify-") && !lostOnly || !strings.HasPrefix(sh.name, "simplify-") && !lostOnlyOrdered) {
+				continue // an operator / identifier / literal / attribute token differs: never known
 			}
 			if c08Cured(src, sh, kind, m) {
 				return "v2-" + sh.name + ":" + kind
@@ -342,7 +354,7 @@ func c08Class(kind string, m fmtMode, src []byte, origin string) string {
 			if hang != nil {
 				all.edits = append(all.edits, hang.edits...)
 			}
-			if c08Cured(src, all, kind, m) {
+			if (kind != "tree-changed" || lostOnlyOrdered) && c08Cured(src, all, kind, m) {
 				return "v2-" + all.name + ":" + kind
 			}
 		}
@@ -353,6 +365,8 @@ func c08Class(kind string, m fmtMode, src []byte, origin string) string {
 	case m.simplify && (kind == "output-does-not-parse" || kind == "second-fmt-fails") && hasQuotedLabelNamedByReference(f0) && !c08FailsWithoutSimplify(src, m, kind):
 		// `{"foo": y, [foo]: 1}`: the captured reference makes the output invalid (only with -s)
 		return v + "-simplify-unquotes-label-that-a-reference-names:" + kind
+	case m.simplify && kind == "tree-changed" && !lostOnly:
+		return strict
 	case m.simplify && kind == "tree-changed" && hasQuotedLabelWithIdentSibling(f0):
 		return v + "-simplify-unquotes-label-with-identifier-sibling"
 	case m.simplify && kind == "tree-changed" && hasAnyPatternWithAttr(f0):
@@ -710,6 +724,18 @@ func runC08(c *Cfg) {
 		c08Sweep(c, m, lits, "literal-program")
 	}
 	c08Log("literal streams done: %d re-indented, %d generated", len(rmuts), len(lits))
+
+	// operator chains with comments after the operators
+	chains := c08GenChainPrograms(c, r.Sub(), c.Pick(2500, 30000))
+	var chainIns []c08Input
+	for _, ch := range chains {
+		chainIns = append(chainIns, ch.c08Input)
+	}
+	for _, m := range c08Modes[:3] { // v2, v2 -s, v1
+		c08Sweep(c, m, chainIns, "chain-program")
+		c08ChainValues(c, m, chains)
+	}
+	c08Log("chain programs done: %d", len(chains))
 
 	// generated programs with randomised layout
 	gens := c08GenPrograms(c, r.Sub(), c.Pick(2500, 40000))
